@@ -318,6 +318,9 @@ def digest_files(pid):
         files += [f for f in load_spec(b).get("digest_extra", []) if f not in files]
     except Exception:
         pass
+    ex = os.path.join(VERIF, "checks", "digest_extra.json")
+    if os.path.exists(ex):
+        files += [f for f in json.load(open(ex)).get(b, []) if f not in files]
     return files
 
 
